@@ -371,6 +371,30 @@ func runCheck(opt *checkOpts) int {
 		assumptions = append(assumptions, a)
 	}
 	und := undecidedClauses[opt.property]
+	if data, err := os.ReadFile(filepath.Join(opt.verif, "undecided.json")); err == nil {
+		m := map[string][]string{}
+		if json.Unmarshal(data, &m) == nil {
+			und = m[opt.property]
+		}
+	}
+	// preconditions of functions under contract that no verified caller establishes (entry points): assumptions on the environment
+	var entryPre []string
+	called := map[string]bool{}
+	for _, r := range results {
+		if i := strings.Index(r.Obl.Clause, "#call["); i > 0 {
+			rest := r.Obl.Clause[i+len("#call["):]
+			if j := strings.Index(rest, "]"); j > 0 {
+				called[rest[:j]] = true
+			}
+		}
+	}
+	for _, k := range funcsUnder {
+		if fc := repo.cs.Funcs[k]; fc != nil && !called[k] {
+			for _, rq := range fc.Requires {
+				entryPre = append(entryPre, k+" requires "+rq.Src)
+			}
+		}
+	}
 	clauseList := []string{}
 	for _, cl := range order {
 		if aggs[cl].ok == aggs[cl].n && strings.Contains(cl, "#ensures.") {
@@ -407,6 +431,7 @@ func runCheck(opt *checkOpts) int {
 			"stale_findings":           stale,
 			"undecided_clauses_of_the_property": und,
 			"bounded_standins":         []string{},
+			"preconditions_assumed_at_entry_points": entryPre,
 			"max_query_kB":             maxQuery / 1024,
 			"explanation":              "obligations = SMT queries generated from /repo's current source for the functions and lemmas listed (safety, frame, loop invariant entry/preservation, variants, call preconditions, postconditions); discharged = answered unsat. Refuted obligations that are listed known findings are reported separately and are not counted.",
 		},
